@@ -1437,7 +1437,7 @@ pub fn t_equiv(a: &[i64]) -> Val {
 //   n: extern S (size sn);  m: use n;  type R { f: S, p: *const R }  [vftable on R]  enum K: u32
 //   u: not imported by m or n.  It declares, per flag: a type named R (colliding short name), a type named S of another size,
 //      a type with a vftable named like R's table (RVftable), an enum K, and it may import m.
-// a = [ps, sn, r_vft, u_R, u_S, u_S_size, u_RVftable, u_K, u_uses_m, u_first, u_impl_R, type_import]
+// a = [ps, sn, r_vft, u_R, u_S, u_S_size, u_RVftable, u_K, u_uses_m, u_first, u_impl_R, type_import, u_refs_private]
 pub fn t_unrelated(a: &[i64]) -> Val {
     let ps = a[0] as usize;
     let mn = M::new().with_extern_types([(
@@ -1460,6 +1460,10 @@ pub fn t_unrelated(a: &[i64]) -> Val {
     }
     m_defs.push(ID::new((V::Public, "R"), TD::new(r_stmts).with_attributes([A::packed()])));
     m_defs.push(ID::new((V::Public, "K"), ED::new(T::ident("u32"), [ES::field("A")], [])));
+    if a.len() > 12 && a[12] != 0 {
+        m_defs.push(ID::new((V::Private, "P"), TD::new([TS::field((V::Public, "z"), T::ident("u32"))])));
+        m_defs.push(ID::new((V::Private, "Q"), ED::new(T::ident("u32"), [ES::field("A")], [])));
+    }
     let mm = M::new().with_uses([IP::from(if type_import { "n::S" } else { "n" })]).with_definitions(m_defs);
     let mn2 = mn.clone().with_definitions([ID::new(
         (V::Public, "S2"),
@@ -1477,6 +1481,19 @@ pub fn t_unrelated(a: &[i64]) -> Val {
     }
     if a[7] != 0 {
         u_defs.push(ID::new((V::Public, "K"), ED::new(T::ident("u8"), [ES::field("Z")], [])));
+    }
+    // a[12]: m has a private type `P` and a private enum `Q`; u (which must import m to see them) has a public type with fields of those types.
+    //        u referring to m's items does not make u reachable from m.
+    let u_refs_private = a.len() > 12 && a[12] != 0;
+    if u_refs_private {
+        u_defs.push(ID::new(
+            (V::Public, "UP"),
+            TD::new([
+                TS::field((V::Public, "qq"), T::ident("Q").const_pointer()),
+                TS::field((V::Public, "pp"), T::ident("P")),
+                TS::field((V::Public, "pad"), T::ident("u32")),
+            ]),
+        ));
     }
     let mut mu = M::new().with_definitions(u_defs);
     if a[4] != 0 {
